@@ -1,1 +1,2 @@
 //! shared helpers for the chk-common checks
+pub mod enc;
